@@ -153,22 +153,16 @@ class BatchingMutexPrimitiveJobRunner(Generic[PUBTYPE, PUBRESULT]):
 
         # Acquire the _variable_lock to gain write access.
         with self._variable_lock:
-            # Try to gather the batch results.
-            if self._result is not None:
-                result = self._result
-                # Since non-executing threads are finished here, mark their exiting by reducing the _thread_counter.
-                self._thread_counter -= 1
-                # Notify a subsequent thread of the availability of the results.
-                with self._internal_wait_condition:
-                    self._internal_wait_condition.notify()
-            else:
-                # Since non-executing threads are finished here, mark their exiting by reducing the _thread_counter.
-                self._thread_counter -= 1
-                with self._internal_wait_condition:
-                    self._internal_wait_condition.notify()
-                if self._exception is None:
-                    raise ValueError("Result was not yet ready to retrieve!")
-                raise self._exception
+            # Gather the batch results or the exception raised while processing the batch.
+            result = self._result
+            exception = self._exception
+            if result is None and exception is None:
+                exception = ValueError("Result was not yet ready to retrieve!")
+            # Mark the exiting of this thread by reducing the _thread_counter.
+            self._thread_counter -= 1
+            # Notify a subsequent thread of the availability of the results.
+            with self._internal_wait_condition:
+                self._internal_wait_condition.notify()
 
         if executor:
             # The executing thread waits for all other threads to exit.
@@ -182,19 +176,19 @@ class BatchingMutexPrimitiveJobRunner(Generic[PUBTYPE, PUBRESULT]):
             # then reset the shared variables to prepare the next batch.
             with self._variable_lock:
                 self._result = None
+                self._exception = None
                 self._batched_pubs = []
                 self._batch_length = 0
                 self._thread_counter = 0
                 self._entry_counter = 0
-                if self._exception is not None:
-                    exception = self._exception
-                    self._exception = None
-                    raise exception
 
             # Finally re-enable entry and notify the waiting threads so that next batch may be gathered.
             self._entry_lock.release()
             with self._external_wait_condition:
                 self._external_wait_condition.notify_all()
+
+        if result is None:
+            raise exception
 
         return result, batch_index
 
